@@ -368,6 +368,9 @@ def _run(ctx):
         "quiescent state after each round (all replicas equal; data = fold of the source prefix up to the synced position); it can "
         "reproduce the open finding c19-pipelined-drop-on-leader-change, which the model shows too (MC_ZSync_pipelined, CancelPrefix). "
         "Leader kill (instead of transfer) is not driven",
+        "the sending side is exercised through the real log-syncer state machine (send loop + gRPC sender) only for the case of a "
+        "buffered batch that overlaps the destination's synced position after a sender restart; the learner's raft, its snapshot "
+        "hand-over and the ignore-send switch are not driven",
         "remote snapshots: the success path (a usable checkpoint of the source's data as of entry i, fetched through the local copy "
         "path) on both engines, the failing apply only on pebble (the memory engine does not check a checkpoint before restoring it); "
         "one kind per receiver, because a failed snapshot blocks further ones for 5 minutes",
